@@ -323,21 +323,6 @@ void mutantCase(const Toks &base, const char *formName, int depth) {
 void body(V::Ctx &ctx)
 {
     const bool quick = ctx.quick();
-    // ---- A: round trips, one case per year
-    for (int y = 1970; y <= 9999; ++y) {
-        char d[32]; snprintf(d, sizeof d, "rt:year=%d", y);
-        if (V::begin_case(d)) { yearCase(y, quick); V::end_case(); }
-    }
-    std::vector<Civil> boundary = {
-        {1970, 1, 1, 0, 0, 0}, {2000, 2, 29, 0, 0, 0}, {9999, 12, 31, 0, 0, 0},
-        {1999, 12, 31, 0, 0, 0}, {2000, 1, 1, 0, 0, 0}, {2038, 1, 19, 0, 0, 0}, {2100, 2, 28, 0, 0, 0}, {2100, 3, 1, 0, 0, 0},
-        {2106, 2, 7, 0, 0, 0}, {1972, 2, 29, 0, 0, 0}, {2400, 2, 29, 0, 0, 0}, {9999, 1, 1, 0, 0, 0}, {1970, 12, 31, 0, 0, 0},
-        {2069, 12, 31, 0, 0, 0}, {1977, 1, 1, 0, 0, 0}, {2024, 12, 31, 0, 0, 0}};
-    const size_t nDays = quick ? 3 : boundary.size();
-    for (size_t i = 0; i < nDays; ++i) {
-        char d[48]; snprintf(d, sizeof d, "rt:day=%04d-%02d-%02d", boundary[i].y, boundary[i].m, boundary[i].d);
-        if (V::begin_case(d)) { wholeDay(boundary[i]); V::end_case(); }
-    }
     // ---- B: parser on the three forms and their mutants
     std::vector<Civil> dates = {
         {1994, 11, 6, 8, 49, 37}, {1970, 1, 1, 0, 0, 0}, {1999, 12, 31, 23, 59, 59}, {2000, 2, 29, 12, 0, 0}, {2038, 1, 19, 3, 14, 7},
@@ -354,6 +339,21 @@ void body(V::Ctx &ctx)
             const std::string d = std::string("parse:") + f.name + ":depth" + std::to_string(depth) + ":" + join(f.t);
             if (V::begin_case(d)) { mutantCase(f.t, f.name, depth); V::end_case(); }
         }
+    }
+    // ---- A: round trips, one case per year
+    for (int y = 1970; y <= 9999; ++y) {
+        char d[32]; snprintf(d, sizeof d, "rt:year=%d", y);
+        if (V::begin_case(d)) { yearCase(y, quick); V::end_case(); }
+    }
+    std::vector<Civil> boundary = {
+        {1970, 1, 1, 0, 0, 0}, {2000, 2, 29, 0, 0, 0}, {9999, 12, 31, 0, 0, 0},
+        {1999, 12, 31, 0, 0, 0}, {2000, 1, 1, 0, 0, 0}, {2038, 1, 19, 0, 0, 0}, {2100, 2, 28, 0, 0, 0}, {2100, 3, 1, 0, 0, 0},
+        {2106, 2, 7, 0, 0, 0}, {1972, 2, 29, 0, 0, 0}, {2400, 2, 29, 0, 0, 0}, {9999, 1, 1, 0, 0, 0}, {1970, 12, 31, 0, 0, 0},
+        {2069, 12, 31, 0, 0, 0}, {1977, 1, 1, 0, 0, 0}, {2024, 12, 31, 0, 0, 0}};
+    const size_t nDays = quick ? 3 : boundary.size();
+    for (size_t i = 0; i < nDays; ++i) {
+        char d[48]; snprintf(d, sizeof d, "rt:day=%04d-%02d-%02d", boundary[i].y, boundary[i].m, boundary[i].d);
+        if (V::begin_case(d)) { wholeDay(boundary[i]); V::end_case(); }
     }
     V::S().outcomes["parse:denoting-accepted"] += tally.informAcc;
     V::S().outcomes["parse:denoting-rejected"] += tally.informRej;
